@@ -39,6 +39,8 @@ CONSTANTS NV,            \* development versions are 1..NV (in cascade order)
           EmitJson,      \* TRUE: carry the JSON projection of each state in `out` (simulation)
           PruneOnlyOwned,\* FALSE = the code (push --all --prune deletes every remote head the clone does not have);
                          \* TRUE = an idealised design that only deletes w/ q/ branches (deviation switch)
+          PushOnlyChanged,\* FALSE = the code (push --all pushes every local head, i.e. also source branches as they were at
+                         \* clone time); TRUE = idealised: only heads the job changed are pushed (deviation switch)
           AtomicPush,    \* TRUE: named pushes are atomic (repaired code: git push --atomic)
           FixSelect,     \* TRUE: queue selection iterates to a fixpoint (repaired code)
           FixDirect      \* TRUE: no_octopus direct merge merges the w/ branch first (repaired code)
@@ -126,9 +128,11 @@ Merge3(nooct, g, h, a, b) == IF nooct THEN ConsM(g, h, a, b) ELSE Octo(g, h, a, 
 (*  k in {"push","pushall","delref","comment","createpr","declinepr"}      *)
 (***************************************************************************)
 Op(k, loc, names, prune, p, b, code) ==
-  [k |-> k, loc |-> loc, names |-> names, prune |-> prune, p |-> p, b |-> b, code |-> code]
+  [k |-> k, loc |-> loc, names |-> names, prune |-> prune, p |-> p, b |-> b, code |-> code, base |-> <<>>]
 PushOp(loc, names)   == Op("push", loc, names, FALSE, 0, Dev(0), "")
 PushAllOp(loc, prune) == Op("pushall", loc, {}, prune, 0, Dev(0), "")
+\* push --all with the clone's snapshot attached (used by the idealised variant PushOnlyChanged)
+PushAllFrom(base, loc, prune) == [PushAllOp(loc, prune) EXCEPT !.base = base]
 DelRefOp(n)          == Op("delref", <<>>, {n}, FALSE, 0, Dev(0), "")
 CommentOp(p, code)   == Op("comment", <<>>, {}, FALSE, p, Dev(0), code)
 CreatePrOp(p, b)     == Op("createpr", <<>>, {}, FALSE, p, b, "")
@@ -247,7 +251,7 @@ EvalQueuesPlan(g, r, force) ==
            notes == [j \in DOMAIN sel |->
                        CommentOp(sel[j], IF Leq(g, r[SrcN(sel[j])], loc1[BN(pr[sel[j]].dst)])
                                          THEN "successful_merge" ELSE "partial_merge")]
-       IN [g |-> g, plan |-> notes \o <<PushAllOp(loc2, TRUE)>>, status |-> "Merged", pend |-> <<>>]
+       IN [g |-> g, plan |-> notes \o <<PushAllFrom(r, loc2, TRUE)>>, status |-> "Merged", pend |-> <<>>]
 
 (***************************************************************************)
 (* _handle_pull_request (gitwaterflow/__init__.py) - plan of a PR evaluation *)
@@ -310,7 +314,7 @@ EvalPrPlan(g, r, p) ==
         ws == WOf(r, p)
     IN IF kids = {} /\ ws = {} THEN Res(g, Greet(p), "NothingToDo")
        ELSE Res(g, Greet(p) \o [j \in 1..Cardinality(kids) |-> DeclinePrOp(p, SetToSeq(kids)[j])]
-                    \o <<PushAllOp(Del(r, ws), TRUE)>>, "PullRequestDeclined")
+                    \o <<PushAllFrom(r, Del(r, ws), TRUE)>>, "PullRequestDeclined")
   ELSE IF SrcN(p) \notin DOMAIN r THEN Res(g, Greet(p), "NothingToDo")
   ELSE IF Leq(g, r[SrcN(p)], r[BN(P.dst)]) THEN Res(g, Greet(p), "NothingToDo")
   ELSE IF UseQueue /\ \E j \in 1..n : QWN(p, T[j]) \in DOMAIN r THEN    \* already_in_queue
@@ -363,7 +367,7 @@ EvalPrPlan(g, r, p) ==
         locd == Del(loc1, {QN(b) : b \in qb})
         d == DirectMerge(g1, locd, p, T, 1, 0, P.nooct)
         locf == Del(d.loc, wnames)
-    IN Res(d.g, pre \o delq \o <<PushAllOp(locf, TRUE), CommentOp(p, "successful_merge")>>, "SuccessMessage")
+    IN Res(d.g, pre \o delq \o <<PushAllFrom(r, locf, TRUE), CommentOp(p, "successful_merge")>>, "SuccessMessage")
 
 (***************************************************************************)
 (* handle_commit (gitwaterflow/__init__.py)                                *)
@@ -383,12 +387,12 @@ QueuedOrder(g, r) == IF QueuesCoherent(g, r) /\ QBranches(r) # {} THEN ExtractPr
 RebuildPlan(g, r) ==
   IF ~ UseQueue THEN Res(g, <<>>, "NotMyJob")
   ELSE IF QRefs(r) = {} THEN Res(g, <<>>, "JobSuccess")
-  ELSE [g |-> g, plan |-> <<PushAllOp(Del(r, QRefs(r)), TRUE)>>, status |-> "JobSuccess",
+  ELSE [g |-> g, plan |-> <<PushAllFrom(r, Del(r, QRefs(r)), TRUE)>>, status |-> "JobSuccess",
         pend |-> QueuedOrder(g, r)]
 DeleteQueuesPlan(g, r) ==
   IF ~ UseQueue THEN Res(g, <<>>, "NotMyJob")
   ELSE IF QRefs(r) = {} THEN Res(g, <<>>, "JobSuccess")
-  ELSE Res(g, <<PushAllOp(Del(r, QRefs(r)), TRUE)>>, "JobSuccess")
+  ELSE Res(g, <<PushAllFrom(r, Del(r, QRefs(r)), TRUE)>>, "JobSuccess")
 ForceMergePlan(g, r) ==
   IF ~ UseQueue THEN Res(g, <<>>, "NotMyJob") ELSE EvalQueuesPlan(g, r, TRUE)
 
@@ -492,9 +496,11 @@ ApplyPush(g, r, rej, op) ==
      ELSE [refs |-> [n \in DOMAIN r \cup ok |-> IF n \in ok THEN op.loc[n] ELSE r[n]],
            fail |-> ok # op.names]
 ApplyPushAll(g, r, rej, op) ==     \* git push --all --atomic [--prune]
-  LET heads == DOMAIN op.loc
+  LET heads0 == DOMAIN op.loc
+      heads == IF PushOnlyChanged /\ op.base # <<>>
+               THEN {n \in heads0 : n \notin DOMAIN op.base \/ op.base[n] # op.loc[n]} ELSE heads0
       changed == {n \in heads : n \notin DOMAIN r \/ r[n] # op.loc[n]}
-      gone == IF op.prune THEN {n \in DOMAIN r \ heads : ~ PruneOnlyOwned \/ Kind(n) \in {"w", "q", "qw"}} ELSE {}
+      gone == IF op.prune THEN {n \in DOMAIN r \ heads0 : ~ PruneOnlyOwned \/ Kind(n) \in {"w", "q", "qw"}} ELSE {}
       ok == (\A n \in changed : Accepts(g, r, rej, n, op.loc[n])) /\ (gone \cap rej = {})
   IN IF ok THEN [refs |-> [n \in heads \cup (DOMAIN r \ gone) |-> IF n \in heads THEN op.loc[n] ELSE r[n]],
                  fail |-> FALSE]
@@ -597,6 +603,17 @@ ThirdPushSrc(p) ==
   /\ last' = <<"third_push_src", p>>
   /\ UNCHANGED <<pr, child, bs, greeted, lastmsg>>
 
+\* the owner rewinds the source branch by one commit while a job is running
+ParentOf(g, c) == CHOOSE x \in g.anc[c] \ {c} : \A y \in g.anc[c] \ {c} : y <= x
+ThirdRewindSrc(p) ==
+  /\ Faults /\ "third" \in FaultKinds /\ job.on /\ job.plan # <<>> /\ job.tp = 0 /\ SrcN(p) \in DOMAIN refs
+  /\ Head(job.plan).k \in {"push", "pushall", "delref"}
+  /\ G.lab[refs[SrcN(p)]] = "user" /\ G.lab[ParentOf(G, refs[SrcN(p)])] = "user"
+  /\ refs' = Set(refs, SrcN(p), ParentOf(G, refs[SrcN(p)]))
+  /\ job' = [job EXCEPT !.tp = 1]
+  /\ last' = <<"third_rewind_src", p>>
+  /\ UNCHANGED <<G, pr, child, bs, greeted, lastmsg>>
+
 Next ==
   \/ \E p \in 1..NP, d \in Branches : OpenPR(p, d)
   \/ \E p \in 1..NP : PushSrc(p) \/ Approve(p) \/ Decline(p) \/ Unapprove(p)
@@ -606,7 +623,7 @@ Next ==
   \/ JobBegin \/ ApplyOp \/ JobEnd
   \/ Crash \/ ThirdCreate
   \/ \E n \in DOMAIN refs : RejectRef(n)
-  \/ \E p \in 1..NP : ThirdPushSrc(p)
+  \/ \E p \in 1..NP : ThirdPushSrc(p) \/ ThirdRewindSrc(p)
 
 (* projection of a state, compared with the real repository after every replayed step *)
 Proj(g, r, prs, ch, b, l) ==
